@@ -33,4 +33,4 @@ let () =
     let x = drive (nat_of_int 6000) (action_of first) (action_of thn) (early = "1") (init c) (zeros vl) SWaitFirst in
     let pvs = if pv_enabled x then string_of_n x.pv.pv_ad else "-" in
     let ie = saw_ieof x.io.wire || (pv_enabled x && not c.vb_expected) in
-    obs_s (view (acl = "1") (n_of_string alen) x) ^ " pv=" ^ pvs ^ " ieof=" ^ b2s ie ^ " a204=" ^ b2s x.fl.allow204post)
+    obs_s (view x) ^ " pv=" ^ pvs ^ " ieof=" ^ b2s ie ^ " a204=" ^ b2s x.fl.allow204post)
